@@ -136,6 +136,16 @@ CHECKS = {
         "assumptions": ["testing/synctest fake clock", "rapid v1.3.0; go1.26.8"],
         "jobs": [{"pkg": "c20time", "kinds": ["sleep", "ticker"], "scale_thorough": 10, "shards_thorough": 16}],
     },
+    "C16": {
+        "level": "exploration",
+        "level_text": ("Generated scripts inside testing/synctest bubbles with a gated Locker that holds each waiter exactly between c.L.Unlock() and the select inside Wait (or lets it park): k waiters, then "
+                       "generated Signal/Broadcast/gate-opening/context-cancel steps (quiesced or racing), then all gates open and the woken waiters are counted after quiescence; lock ownership is tracked by the Locker itself"),
+        "level_note": "Schedules are explored structurally (which waiter is in the window/parked when each Signal lands, quiesced vs racing steps) and by repetition; the Go scheduler itself is not enumerated. One open known finding (coalesced Signals).",
+        "technique": "property-based testing (rapid) of generated waiter/signal scripts in testing/synctest bubbles; counting oracle after quiescence",
+        "rule": ("plans: k in 1..5 waiters each parked or held in the unlock-to-park window, 0-8 steps. non-trivial = k >= 2 and a Signal or Broadcast is issued while some waiter is in the window; distinct = distinct plan JSON; every plan is executed R times (quick 3, thorough 10)"),
+        "assumptions": ["testing/synctest durable-block detection", "the gated Locker identifies the unlocking waiter because Lock is exclusive", "rapid v1.3.0; go1.26.8"],
+        "jobs": [{"pkg": "c16cond", "kinds": ["cond"], "scale_thorough": 10, "shards_thorough": 16, "replay_reps": 50}],
+    },
     "C04": {
         "level": "exploration",
         "level_text": ("Model-based property testing: thousands of generated operation histories (macro-ops reach wrapped, full, "
